@@ -33,6 +33,8 @@ var findingDefs = []findingDef{
 		[]string{"C09:contains=>rect-covers:Circle-", "C09:intersects=>rects-meet:Circle-", "C09:intersects=>rects-meet:Feature-Circle", "C09:intersects=>rects-meet:Point-Circle", "C09:intersects=>rects-meet:SimplePoint-Circle", "C09:symmetry:Circle-", "C09:symmetry:MultiPoint-Circle", "C13:rect-", "C10:compose-GeometryCollection-intersects(probe 3)", "C10:compose-FeatureCollection-intersects(probe 3)", "C10:compose-GeometryCollection-contains(probe 3)", "C10:compose-FeatureCollection-contains(probe 3)"}},
 	{"KF-CIRCLE-SPATIAL-POLYGON", "Circle.Spatial() returns the Spatial of the circle's polygon approximation, so the interface methods on a raw point (Spatial().IntersectsPoint / WithinPoint, as Tile38-style callers use them) answer by the 64-gon while Circle.Intersects / Contains of the Point object answer by the great-circle distance: a point between the polygon and the rim of the disc gets opposite answers, e.g. Circle((1,1), 111.4 km) and its rim probes",
 		[]string{"C09:spatial-interface:Circle-", "C10:compose-GeometryCollection-spatial-interface(probe", "C10:compose-FeatureCollection-spatial-interface(probe"}},
+	{"KF-NONFINITE-INDEX", "a document with ordinates that overflow to +Inf / -Inf (1e999; accepted unless RequireValid) gets different predicate answers under different geometry-index options: with infinite ordinates on both axes the series rectangle is all-infinite, quadtree midlines and r-tree boxes are NaN / infinite and the indexed search no longer reports the segments an index-free scan visits; e.g. a 20-position Polygon with [1e999,1e999] and [-1e999,-1e999] among its positions contains / intersects the probes with no index and not with IndexGeometry <= 21",
+		[]string{"C08:answers-differ-overflow"}},
 	{"KF-CIRCLE-DROPS-MEMBERS", "a Feature in the Circle convention keeps only the centre's x,y and the radius: id, bbox, other members of the feature or of its properties, members of the point geometry and z/m ordinates are dropped by Parse and absent from JSON()",
 		[]string{"*:circle-drops-members"}},
 	{"KF-MIXED-DIMS-REJECTED", "a LineString / Polygon / Multi* coordinate member whose first position has two ordinates and a later one three or four is rejected ('invalid coordinates') although every position is an array of two to four numbers; deliberate in the parser (dimensionality is fixed by the first position)",
